@@ -1216,7 +1216,10 @@ fn main() {
     let focused = focused_seeds(seed, if thorough { 8 } else { 3 }, 2000);
     let n_focused = focused.len();
     let mut gen = gen;
-    gen.extend(focused.iter().cloned());
+    // only the short focused responses join the seed pool of the mutation passes (every mutant and every
+    // prefix goes through the model driver; with long seeds a new constant turned a 3 s run into an hour);
+    // the long ones are run whole in the directed pass below
+    gen.extend(focused.iter().filter(|b| b.len() <= 1024).cloned());
     let seeds = seeds_for(&corpus, gen);
     init_buckets(&seeds);
     let total = Mutex::new(Log::default());
@@ -1271,7 +1274,37 @@ fn main() {
                         "C02" => {
                             oracle_c02_pair(&mut ctx, input, b"* 1 EXISTS\r\n", "source-constant");
                             if input.len() <= 4096 {
-                                let cuts: Vec<usize> = (0..input.len()).collect();
+                                // every cut of a short input; of a long one the cuts at both ends, around the
+                                // multiples of the new constants and a stride (the model driver re-parses
+                                // every prefix: all cuts of all long inputs took tens of minutes)
+                                let n = input.len();
+                                let cuts: Vec<usize> = if n <= 600 {
+                                    (0..n).collect()
+                                } else {
+                                    let mut c: Vec<usize> = (0..64).chain(n - 64..n).collect();
+                                    for (v, is_new) in vh_proto::srcdict::dict().ints.iter() {
+                                        let v = *v as usize;
+                                        if *is_new && v >= 2 && v < n {
+                                            let mut m = v;
+                                            let mut k = 0;
+                                            while m < n && k < 8 {
+                                                for d in 0..5 {
+                                                    let x = m + d;
+                                                    if x >= 2 && x - 2 < n {
+                                                        c.push(x - 2);
+                                                    }
+                                                }
+                                                m += v;
+                                                k += 1;
+                                            }
+                                        }
+                                    }
+                                    let stride = std::cmp::max(1, n / 200);
+                                    c.extend((0..n).step_by(stride));
+                                    c.sort();
+                                    c.dedup();
+                                    c
+                                };
                                 oracle_c02_prefixes(&mut ctx, input, &cuts, "source-constant");
                             }
                         }
